@@ -13,6 +13,10 @@ logging.disable(logging.CRITICAL)
 from oslo_config import cfg  # noqa: E402
 import yabgp.config  # noqa: E402,F401
 from twisted.internet import reactor  # noqa: E402  (the stand-in)
+# the agent's own start-up code (builds the peering, schedules its first start); importing it registers the REST options,
+# which has to happen before oslo.config parses its (empty) command line
+import yabgp.agent as _agent  # noqa: E402
+from yabgp.common import constants as _bgp_cons  # noqa: E402
 import impl_codec as IC  # noqa: E402
 
 _conf_ready = False
@@ -96,7 +100,7 @@ DEFAULT_CFG = {
     'local_as': 65001, 'remote_as': 65002, 'hold_time': 180, 'connect_retry_time': 30, 'idle_hold_time': 30,
     'caps': {'four_bytes_as': True, 'route_refresh': True, 'cisco_route_refresh': True, 'enhanced_route_refresh': True,
              'graceful_restart': True, 'cisco_multi_session': True, 'add_path': None, 'afi_safi': [[1, 1]]},
-    'rib': False, 'local_host': '10.0.0.1',
+    'rib': False, 'local_host': '10.0.0.1', 'remote_addr': '10.0.0.2',
 }
 
 
@@ -127,18 +131,31 @@ class Sim(object):
             local['afi_safi'] = [tuple(x) for x in caps['afi_safi']]
         if caps.get('ext_nexthop') is not None:
             local['ext_nexthop'] = [{'afi_safi': [a, s], 'nexthop_afi': n} for a, s, n in caps['ext_nexthop']]
+        names = ['ipv4']
         cfg.CONF.bgp.running_config = {
-            'remote_as': c['remote_as'], 'remote_addr': '10.0.0.2', 'local_as': c['local_as'],
-            'local_addr': c['local_host'], 'md5': None, 'afi_safi': [(1, 1)],
+            'remote_as': c['remote_as'], 'remote_addr': c['remote_addr'], 'local_as': c['local_as'],
+            'local_addr': c['local_host'], 'md5': c.get('md5'), 'afi_safi': names,
             'capability': {'local': local, 'remote': {}},
         }
         self.world = reactor.world
         self.world.reset(local_host=c['local_host'])
-        from yabgp.core.factory import BGPPeering
         self.handler = RecordingHandler(self.world, self)
-        self.peering = BGPPeering(myasn=c['local_as'], myaddr=c['local_host'], peerasn=c['remote_as'],
-                                  peeraddr='10.0.0.2', afisafi=[(1, 1)], md5=None, handler=self.handler)
-        cfg.CONF.bgp.running_config['factory'] = self.peering
+        # the peering is built, and its first start scheduled, by the agent's own start-up routine
+        # (yabgp/agent/__init__.py::prepare_twisted_service) running over the stand-in reactor
+        _agent.prepare_twisted_service(self.handler)
+        self.peering = cfg.CONF.bgp.running_config['factory']
+        # (the address families: the start-up turned the configured names into (afi, safi) pairs; the harness's
+        # configurations give the pairs themselves, possibly none at all)
+        if caps.get('afi_safi') is None:
+            cfg.CONF.bgp.running_config['capability']['local'].pop('afi_safi', None)
+        else:
+            cfg.CONF.bgp.running_config['capability']['local']['afi_safi'] = [tuple(x) for x in caps['afi_safi']]
+        # the one deferred call of the start-up (reactor.callLater(bgp_peer_call_later_time, <first start>)) is taken out of
+        # the timer list: the harness's `boot` event runs it, whenever the schedule says so
+        boots = [x for x in self.world.calls]
+        assert len(boots) == 1, boots
+        self.boot_call = boots[0]
+        self.world.calls.remove(self.boot_call)
         self.escaped = None
 
     # ---- one event
@@ -146,7 +163,8 @@ class Sim(object):
         w = self.world
         k = ev['k']
         if k == 'boot':
-            self.peering.automatic_start()
+            bc = self.boot_call
+            bc.func(*bc.args, **bc.kw)
         elif k == 'start':
             r = self.peering.manual_start()
             w.out(('ret', 'start', 'EST' if r == 'EST' else bool(r)))
